@@ -36,11 +36,5 @@ pub trait Prop: Sync {
     fn exec(&self, req: &str) -> String;
 }
 
-pub mod c04;
-
-pub fn lookup(id: &str) -> Option<Box<dyn Prop>> {
-    match id {
-        "C04" => Some(Box::new(c04::C04)),
-        _ => None,
-    }
-}
+mod registry;
+pub use registry::lookup;
